@@ -41,15 +41,21 @@ def analyse(db):
         if a is None or not a.exact:
             skip("not affine")
             continue
+        compound = len(p) > 1 or p[0][2] != 1 or p[0][0] != 1.0
         if a.off != 0:
+            # a compound unit - a gradient, a rate, a coefficient - is an interval per something: zero of it is zero of the base
+            # unit, whatever zero points its parts have as units of their own
             skip("row has an offset")
+            if compound:
+                OFFSET_ROWS.append((u, info.quantity_type, a.off, p))
             continue
-        prod, tol, ok = 1.0, grammar.written_precision(info, True), True
+        prod, tol, ok, interval = 1.0, grammar.written_precision(info, True), True, False
         for pre, s, e in p:
             ac = aff.get(s)
-            if ac is None or ac.off != 0 or not ac.exact:
+            if ac is None or not ac.exact or (ac.off != 0 and not compound):
                 ok = False
                 break
+            interval = interval or ac.off != 0  # inside a compound unit 'degF' is an interval of 5/9 K
             prod *= (pre * ac.slope) ** e
             tol += abs(e) * grammar.written_precision(infos[s], False)
         if not ok:
@@ -62,8 +68,11 @@ def analyse(db):
             back = 1.0 / inv if inv else float("inf")
         except Exception:
             back = float("nan")
-        rows.setdefault(info.quantity_type, []).append({"unit": u, "factor": a.slope, "factor_from_frombase": back, "composed": prod, "k": a.slope / prod, "tol": tol, "parts": p})
+        rows.setdefault(info.quantity_type, []).append({"unit": u, "factor": a.slope, "factor_from_frombase": back, "composed": prod, "k": a.slope / prod, "tol": tol, "parts": p, "interval_parts": interval})
     return rows, skipped, aff
+
+
+OFFSET_ROWS = []
 
 
 def readings_agree(ctx, T, a, row, form):
@@ -79,6 +88,37 @@ def readings_agree(ctx, T, a, row, form):
     want_vec = dims.unitvec(dims.items_of(q))
     if by_cat != by_unit or {u: e for u, e in joined if e} != want_vec:
         ctx.violation("composed-amount-reads-differently-unit-by-unit", {"row": row, "form": form, "composed": repr(a)[:160], "category_by_category": [list(t) for t in dims.items_of(q)], "joined_exponents": joined}, replay={"row": row})
+
+
+def read_against_base_units(ctx, T, db, a, row, form):
+    """the composed amount multiplied by one base unit per quantity type at the opposite exponent - once as the left operand,
+    once as the right one: base units have factor 1, so both products are the very amount `a` is, whichever side it stood on"""
+    from barril.units import Scalar
+
+    q = a.GetQuantity()
+    net = {}
+    for c, u, e in dims.items_of(q):
+        net[db.GetCategoryQuantityType(c)] = net.get(db.GetCategoryQuantityType(c), 0) + e
+    inv = None
+    for qt_, e in sorted(net.items()):
+        b = db.GetBaseUnit(qt_)
+        if not e or b not in T.aff or T.aff[b].off != 0 or T.aff[b].slope != 1.0:
+            continue
+        for _ in range(abs(e)):
+            f = Scalar(1.0, b)
+            if inv is None:
+                inv = (1.0 / f) if e > 0 else f
+            else:
+                inv = inv / f if e > 0 else inv * f
+    if inv is None:
+        return
+    ctx.ev()
+    ctx.count("composed amounts multiplied by base units from the left and from the right")
+    want = dims.basemag(T, a.GetValue(), dims.items_of(q))
+    for side, r_ in (("composed amount on the left", a * inv), ("composed amount on the right", inv * a)):
+        got = dims.basemag(T, r_.GetValue(), dims.items_of(r_.GetQuantity())) if hasattr(r_, "GetQuantity") else Fr(r_)
+        if want == 0 or not abs(float(got / want) - 1) <= 1e-9:
+            ctx.violation("composed-amount-changes-when-multiplied-by-base-units:%s" % side, {"row": row, "form": form, "composed": repr(a)[:160], "product": repr(r_)[:160], "ratio": float(got / want) if want else None}, replay={"row": row})
 
 
 def factor_routes(db, qt, u, base):
@@ -127,8 +167,13 @@ def run(ctx):
     ctx.max_kept = 400
     db = table.build("posc")
     with table.pushed(db):
+        del OFFSET_ROWS[:]
         rows, skipped, aff = analyse(db)
         infos = db.unit_to_unit_info
+        for u_, qt_, off_, p_ in OFFSET_ROWS:
+            ctx.ev()
+            ctx.violation("compound-row-has-a-zero-offset-of-its-own:%s" % u_.replace(" ", "_"), {"row": u_, "quantity_type": qt_, "zero_of_the_row_in_the_base_unit": off_, "parts": p_}, replay={"row": u_})
+        ctx.count("rows with a temperature among their parts (read as intervals)", sum(1 for lst in rows.values() for r_ in lst if r_.get("interval_parts")))
         T = dims.Table(db, aff)
         n_rows = n_cmp = 0
         refs, by_unit, off_rows = {}, {}, set()
@@ -188,157 +233,161 @@ def run(ctx):
                              "ratio": ratio, "limit": limit, "parts": r["parts"], "reference_row": ref["unit"]},
                             replay={"row": r["unit"]},
                         )  # fmt: skip
-                # dynamic half: compose the same amount with barril's own arithmetic
-                try:
-                    acc = None
-                    for pre, s, e in r["parts"]:
-                        leaf = Scalar(pre, s)
-                        for _ in range(abs(e)):
-                            if acc is None:
-                                acc = leaf if e > 0 else 1.0 / leaf
-                            else:
-                                acc = acc * leaf if e > 0 else acc / leaf
-                    ctx.ev()
-                    readings_agree(ctx, T, acc, r["unit"], "multiplication")
-                    got = dims.basemag(T, acc.GetValue(), dims.items_of(acc.GetQuantity())) * Fr(ref["k"])
-                    want = dims.basemag(T, 1.0, [(infos[r["unit"]].quantity_type if False else db.GetDefaultCategory(r["unit"]) or qt, r["unit"], 1)])
-                    ratio = float(want / got)
-                    limit = max(K_TOL * (r["tol"] + (ref["tol"] if ref is not r else 0.0)), FLOOR_REL)
-                    if not abs(ratio - 1) <= limit:
-                        ctx.violation("row:%s:ratio=%s" % (r["unit"].replace(" ", "_"), sig3(ratio)), {"row": r["unit"], "dynamic": True, "composed": repr(acc), "ratio": ratio}, replay={"row": r["unit"]})
-                except Exception as e:
-                    ctx.violation("dynamic-raised:%s" % r["unit"].replace(" ", "_"), {"row": r["unit"], "error": repr(e)[:200]}, replay={"row": r["unit"]})
-                # the same amount composed from powers ("in**2", numerator / denominator) - the matching of two units
-                # of one quantity type at an exponent other than 1 takes another path than repeated multiplication
-                try:
-                    num = den = None
-                    for pre, s, e in r["parts"]:
-                        leaf = Scalar(pre, s) ** abs(e)
-                        if e > 0:
-                            num = leaf if num is None else num * leaf
-                        else:
-                            den = leaf if den is None else den * leaf
-                    acc2 = num if den is None else ((1.0 / den) if num is None else num / den)
-                    ctx.ev()
-                    ctx.count("rows composed from powers")
-                    readings_agree(ctx, T, acc2, r["unit"], "powers")
-                    got2 = dims.basemag(T, acc2.GetValue(), dims.items_of(acc2.GetQuantity())) * Fr(ref["k"])
-                    ratio2 = float(want / got2)
-                    if not abs(ratio2 - 1) <= limit:
-                        ctx.violation("row:%s:ratio=%s" % (r["unit"].replace(" ", "_"), sig3(ratio2)), {"row": r["unit"], "dynamic": "powers", "composed": repr(acc2), "ratio": ratio2}, replay={"row": r["unit"]})
-                    # both compositions are the same product of the same leaves: they must tell the same amount
-                    # (also where the row itself is a known finding of the table)
-                    ctx.ev()
-                    if not abs(float(got2 / got) - 1) <= 1e-9:
-                        ctx.violation("two-compositions-of-the-same-parts-differ", {"row": r["unit"], "by_multiplication": repr(acc), "by_powers": repr(acc2), "ratio": float(got2 / got)}, replay={"row": r["unit"]})
-                except Exception as e:
-                    ctx.violation("dynamic-powers-raised:%s" % r["unit"].replace(" ", "_"), {"row": r["unit"], "error": repr(e)[:200]}, replay={"row": r["unit"]})
-                # the same amount from the parts of the parts ('lbf.ft/in2' from lbf, ft and in - not from the area row 'in2'):
-                # units of one quantity type now meet at exponents other than 1, one row after the other in one process
-                try:
-                    mult, leaves, xtol, via = expand(r["parts"])
-                    if via:
-                        compositions = []
-                        for form in ("powers", "multiplication"):
-                            num = den = None
-                            for s_, e in leaves:
-                                if form == "powers":
-                                    terms = [Scalar(1.0, s_) ** abs(e)]
+                # (a row with a temperature among its parts is compared through the table only: its parts are intervals - 1 degC per metre is
+                # 1 K per metre - while a Scalar in degC is a temperature, so composing Scalars is no reading of such a row)
+                if not r.get("interval_parts"):
+                    # dynamic half: compose the same amount with barril's own arithmetic
+                    try:
+                        acc = None
+                        for pre, s, e in r["parts"]:
+                            leaf = Scalar(pre, s)
+                            for _ in range(abs(e)):
+                                if acc is None:
+                                    acc = leaf if e > 0 else 1.0 / leaf
                                 else:
-                                    terms = [Scalar(1.0, s_)] * abs(e)
-                                for t_ in terms:
-                                    if e > 0:
-                                        num = t_ if num is None else num * t_
+                                    acc = acc * leaf if e > 0 else acc / leaf
+                        ctx.ev()
+                        readings_agree(ctx, T, acc, r["unit"], "multiplication")
+                        read_against_base_units(ctx, T, db, acc, r["unit"], "multiplication")
+                        got = dims.basemag(T, acc.GetValue(), dims.items_of(acc.GetQuantity())) * Fr(ref["k"])
+                        want = dims.basemag(T, 1.0, [(infos[r["unit"]].quantity_type if False else db.GetDefaultCategory(r["unit"]) or qt, r["unit"], 1)])
+                        ratio = float(want / got)
+                        limit = max(K_TOL * (r["tol"] + (ref["tol"] if ref is not r else 0.0)), FLOOR_REL)
+                        if not abs(ratio - 1) <= limit:
+                            ctx.violation("row:%s:ratio=%s" % (r["unit"].replace(" ", "_"), sig3(ratio)), {"row": r["unit"], "dynamic": True, "composed": repr(acc), "ratio": ratio}, replay={"row": r["unit"]})
+                    except Exception as e:
+                        ctx.violation("dynamic-raised:%s" % r["unit"].replace(" ", "_"), {"row": r["unit"], "error": repr(e)[:200]}, replay={"row": r["unit"]})
+                    # the same amount composed from powers ("in**2", numerator / denominator) - the matching of two units
+                    # of one quantity type at an exponent other than 1 takes another path than repeated multiplication
+                    try:
+                        num = den = None
+                        for pre, s, e in r["parts"]:
+                            leaf = Scalar(pre, s) ** abs(e)
+                            if e > 0:
+                                num = leaf if num is None else num * leaf
+                            else:
+                                den = leaf if den is None else den * leaf
+                        acc2 = num if den is None else ((1.0 / den) if num is None else num / den)
+                        ctx.ev()
+                        ctx.count("rows composed from powers")
+                        readings_agree(ctx, T, acc2, r["unit"], "powers")
+                        got2 = dims.basemag(T, acc2.GetValue(), dims.items_of(acc2.GetQuantity())) * Fr(ref["k"])
+                        ratio2 = float(want / got2)
+                        if not abs(ratio2 - 1) <= limit:
+                            ctx.violation("row:%s:ratio=%s" % (r["unit"].replace(" ", "_"), sig3(ratio2)), {"row": r["unit"], "dynamic": "powers", "composed": repr(acc2), "ratio": ratio2}, replay={"row": r["unit"]})
+                        # both compositions are the same product of the same leaves: they must tell the same amount
+                        # (also where the row itself is a known finding of the table)
+                        ctx.ev()
+                        if not abs(float(got2 / got) - 1) <= 1e-9:
+                            ctx.violation("two-compositions-of-the-same-parts-differ", {"row": r["unit"], "by_multiplication": repr(acc), "by_powers": repr(acc2), "ratio": float(got2 / got)}, replay={"row": r["unit"]})
+                    except Exception as e:
+                        ctx.violation("dynamic-powers-raised:%s" % r["unit"].replace(" ", "_"), {"row": r["unit"], "error": repr(e)[:200]}, replay={"row": r["unit"]})
+                    # the same amount from the parts of the parts ('lbf.ft/in2' from lbf, ft and in - not from the area row 'in2'):
+                    # units of one quantity type now meet at exponents other than 1, one row after the other in one process
+                    try:
+                        mult, leaves, xtol, via = expand(r["parts"])
+                        if via:
+                            compositions = []
+                            for form in ("powers", "multiplication"):
+                                num = den = None
+                                for s_, e in leaves:
+                                    if form == "powers":
+                                        terms = [Scalar(1.0, s_) ** abs(e)]
                                     else:
-                                        den = t_ if den is None else den * t_
-                            acc3 = num if den is None else ((1.0 / den) if num is None else num / den)
-                            readings_agree(ctx, T, acc3, r["unit"], "parts of parts, " + form)
-                            compositions.append((form, acc3, dims.basemag(T, acc3.GetValue() * mult, dims.items_of(acc3.GetQuantity())) * Fr(ref["k"])))
+                                        terms = [Scalar(1.0, s_)] * abs(e)
+                                    for t_ in terms:
+                                        if e > 0:
+                                            num = t_ if num is None else num * t_
+                                        else:
+                                            den = t_ if den is None else den * t_
+                                acc3 = num if den is None else ((1.0 / den) if num is None else num / den)
+                                readings_agree(ctx, T, acc3, r["unit"], "parts of parts, " + form)
+                                compositions.append((form, acc3, dims.basemag(T, acc3.GetValue() * mult, dims.items_of(acc3.GetQuantity())) * Fr(ref["k"])))
+                            ctx.ev()
+                            ctx.count("rows composed from the parts of their parts")
+                            (f1, a1, g1), (f2, a2, g2) = compositions
+                            row_limit = max(K_TOL * (r["tol"] + xtol + (ref["tol"] if ref is not r else 0.0)), FLOOR_REL)
+                            if not abs(float(g1 / g2) - 1) <= 1e-9:
+                                ctx.violation("two-compositions-of-the-same-parts-differ", {"row": r["unit"], "leaves": leaves, f1: repr(a1), f2: repr(a2), "ratio": float(g1 / g2)}, replay={"row": r["unit"]})
+                            elif r["unit"] not in off_rows and not (set(via) & off_rows):
+                                ctx.count("rows composed from the parts of their parts and compared with the named row")
+                                ratio3 = float(want / g1)
+                                if not abs(ratio3 - 1) <= row_limit:
+                                    ctx.violation("row-from-the-parts-of-its-parts:%s:ratio=%s" % (r["unit"].replace(" ", "_"), sig3(ratio3)), {"row": r["unit"], "leaves": leaves, "through": via, "composed": repr(a1), "ratio": ratio3, "limit": row_limit}, replay={"row": r["unit"]})
+                    except Exception as e:
+                        ctx.violation("dynamic-expanded-raised:%s" % r["unit"].replace(" ", "_"), {"row": r["unit"], "error": repr(e)[:200]}, replay={"row": r["unit"]})
+                    # ... and written with reciprocals: x * (1 / y) instead of x / y - the divisor is an operand of its own,
+                    # carrying the unit at exponent -1 when it meets another unit of the same quantity type
+                    try:
+                        acc4 = None
+                        for pre, s_, e in sorted(r["parts"], key=lambda t: -t[2]):
+                            for _ in range(abs(e)):
+                                leaf = Scalar(pre, s_) if e > 0 else 1.0 / Scalar(pre, s_)
+                                acc4 = leaf if acc4 is None else acc4 * leaf
                         ctx.ev()
-                        ctx.count("rows composed from the parts of their parts")
-                        (f1, a1, g1), (f2, a2, g2) = compositions
-                        row_limit = max(K_TOL * (r["tol"] + xtol + (ref["tol"] if ref is not r else 0.0)), FLOOR_REL)
-                        if not abs(float(g1 / g2) - 1) <= 1e-9:
-                            ctx.violation("two-compositions-of-the-same-parts-differ", {"row": r["unit"], "leaves": leaves, f1: repr(a1), f2: repr(a2), "ratio": float(g1 / g2)}, replay={"row": r["unit"]})
-                        elif r["unit"] not in off_rows and not (set(via) & off_rows):
-                            ctx.count("rows composed from the parts of their parts and compared with the named row")
-                            ratio3 = float(want / g1)
-                            if not abs(ratio3 - 1) <= row_limit:
-                                ctx.violation("row-from-the-parts-of-its-parts:%s:ratio=%s" % (r["unit"].replace(" ", "_"), sig3(ratio3)), {"row": r["unit"], "leaves": leaves, "through": via, "composed": repr(a1), "ratio": ratio3, "limit": row_limit}, replay={"row": r["unit"]})
-                except Exception as e:
-                    ctx.violation("dynamic-expanded-raised:%s" % r["unit"].replace(" ", "_"), {"row": r["unit"], "error": repr(e)[:200]}, replay={"row": r["unit"]})
-                # ... and written with reciprocals: x * (1 / y) instead of x / y - the divisor is an operand of its own,
-                # carrying the unit at exponent -1 when it meets another unit of the same quantity type
-                try:
-                    acc4 = None
-                    for pre, s_, e in sorted(r["parts"], key=lambda t: -t[2]):
-                        for _ in range(abs(e)):
-                            leaf = Scalar(pre, s_) if e > 0 else 1.0 / Scalar(pre, s_)
-                            acc4 = leaf if acc4 is None else acc4 * leaf
-                    ctx.ev()
-                    ctx.count("rows composed with reciprocal operands")
-                    readings_agree(ctx, T, acc4, r["unit"], "reciprocal operands")
-                    got4 = dims.basemag(T, acc4.GetValue(), dims.items_of(acc4.GetQuantity())) * Fr(ref["k"])
-                    if not abs(float(got4 / got) - 1) <= 1e-9:
-                        ctx.violation("two-compositions-of-the-same-parts-differ", {"row": r["unit"], "by_multiplication": repr(acc), "with_reciprocal_operands": repr(acc4), "ratio": float(got4 / got)}, replay={"row": r["unit"]})
-                    # a reciprocal sum: 1/x + 1/y of two components of one quantity type, from parts and from the named reciprocal rows
-                except Exception as e:
-                    ctx.violation("dynamic-reciprocals-raised:%s" % r["unit"].replace(" ", "_"), {"row": r["unit"], "error": repr(e)[:200]}, replay={"row": r["unit"]})
-                # ... and as a fold that starts from a unit-less one (acc = 1; acc = acc * part ...), and with the same-type
-                # ratio taken first ('lbf.ft/in' as (ft/in) * lbf): a unit-less amount on the *left* of a product
-                try:
-                    acc5 = Scalar.CreateEmptyScalar(1.0)
-                    for pre, s_, e in r["parts"]:
-                        for _ in range(abs(e)):
-                            acc5 = acc5 * Scalar(pre, s_) if e > 0 else acc5 / Scalar(pre, s_)
-                    forms5 = [("fold from a unit-less one", acc5)]
-                    by_type = {}
-                    for pre, s_, e in r["parts"]:
-                        by_type.setdefault(infos[s_].quantity_type, []).append((pre, s_, e))
-                    pair = next(((a, b) for lst in by_type.values() for a in lst for b in lst if a[2] > 0 > b[2]), None)
-                    if pair is not None:
-                        (p1, s1, e1), (p2, s2, e2) = pair
-                        acc6 = Scalar(p1, s1) / Scalar(p2, s2)  # unit-less when it is one unit over another of its type
-                        rest = []
+                        ctx.count("rows composed with reciprocal operands")
+                        readings_agree(ctx, T, acc4, r["unit"], "reciprocal operands")
+                        got4 = dims.basemag(T, acc4.GetValue(), dims.items_of(acc4.GetQuantity())) * Fr(ref["k"])
+                        if not abs(float(got4 / got) - 1) <= 1e-9:
+                            ctx.violation("two-compositions-of-the-same-parts-differ", {"row": r["unit"], "by_multiplication": repr(acc), "with_reciprocal_operands": repr(acc4), "ratio": float(got4 / got)}, replay={"row": r["unit"]})
+                        # a reciprocal sum: 1/x + 1/y of two components of one quantity type, from parts and from the named reciprocal rows
+                    except Exception as e:
+                        ctx.violation("dynamic-reciprocals-raised:%s" % r["unit"].replace(" ", "_"), {"row": r["unit"], "error": repr(e)[:200]}, replay={"row": r["unit"]})
+                    # ... and as a fold that starts from a unit-less one (acc = 1; acc = acc * part ...), and with the same-type
+                    # ratio taken first ('lbf.ft/in' as (ft/in) * lbf): a unit-less amount on the *left* of a product
+                    try:
+                        acc5 = Scalar.CreateEmptyScalar(1.0)
                         for pre, s_, e in r["parts"]:
-                            k = abs(e) - (1 if (pre, s_, e) in ((p1, s1, e1), (p2, s2, e2)) else 0)
-                            rest += [(pre, s_, e)] * k
-                        for pre, s_, e in rest:
-                            acc6 = acc6 * Scalar(pre, s_) if e > 0 else acc6 / Scalar(pre, s_)
-                        forms5.append(("same-type ratio first", acc6))
-                    for form, a5 in forms5:
-                        ctx.ev()
-                        ctx.count("rows composed with a unit-less amount on the left")
-                        readings_agree(ctx, T, a5, r["unit"], form)
-                        g5 = dims.basemag(T, a5.GetValue(), dims.items_of(a5.GetQuantity())) * Fr(ref["k"])
-                        if not abs(float(g5 / got) - 1) <= 1e-9:
-                            ctx.violation("two-compositions-of-the-same-parts-differ", {"row": r["unit"], "by_multiplication": repr(acc), form: repr(a5), "ratio": float(g5 / got)}, replay={"row": r["unit"]})
-                except Exception as e:
-                    ctx.violation("dynamic-fold-raised:%s" % r["unit"].replace(" ", "_"), {"row": r["unit"], "error": repr(e)[:200]}, replay={"row": r["unit"]})
-                # a row that is one component at an exponent ('1/ft', 'ft2', '1/psi'): the (unit, exponent) overload of the
-                # conversion - Convert(qt, [(u, e)], [(base, e)], x) and GetValue([(base, e)]) of the derived amount - tells the
-                # same factor as the product of the component's factors
-                if len(r["parts"]) == 1 and r["parts"][0][0] == 1.0:
-                    _pre, atom, e = r["parts"][0]
-                    aqt = infos[atom].quantity_type
-                    abase = db.GetBaseUnit(aqt)
-                    for route, amount, fn in (
-                        ("UnitDatabase.Convert(qt,[(u,e)],[(base,e)],x)", 2.0, lambda: db.Convert(aqt, [(atom, e)], [(abase, e)], 2.0)),
-                        ("derived Scalar.GetValue([(base,e)])", 2.0, lambda: ((Scalar(1.0, atom) ** abs(e)) * 2.0 if e > 0 else 2.0 / (Scalar(1.0, atom) ** abs(e))).GetValue([(abase, e)])),
-                        # a negative amount of the same unit is the same factor away from its base amount
-                        ("UnitDatabase.Convert(qt,[(u,e)],[(base,e)],-x)", -3.0, lambda: db.Convert(aqt, [(atom, e)], [(abase, e)], -3.0)),
-                        ("derived Scalar.GetValue([(base,e)]) of a negative amount", -3.0, lambda: ((Scalar(1.0, atom) ** abs(e)) * -3.0 if e > 0 else -3.0 / (Scalar(1.0, atom) ** abs(e))).GetValue([(abase, e)])),
-                    ):  # fmt: skip
-                        ctx.ev()
-                        ctx.count("single-component rows read through the (unit, exponent) overload")
-                        try:
-                            gv = float(fn())
-                        except Exception as ex:
-                            ctx.violation("route-raised:%s" % route, {"row": r["unit"], "route": route, "error": repr(ex)[:200]}, replay={"row": r["unit"]})
-                            continue
-                        wv = amount * r["composed"]
-                        if not abs(gv - wv) <= 1e-11 * abs(wv):
-                            ctx.violation("row-factor-differs-by-route:%s" % route, {"row": r["unit"], "route": route, "got": gv, "product_of_component_factors": wv}, replay={"row": r["unit"]})
+                            for _ in range(abs(e)):
+                                acc5 = acc5 * Scalar(pre, s_) if e > 0 else acc5 / Scalar(pre, s_)
+                        forms5 = [("fold from a unit-less one", acc5)]
+                        by_type = {}
+                        for pre, s_, e in r["parts"]:
+                            by_type.setdefault(infos[s_].quantity_type, []).append((pre, s_, e))
+                        pair = next(((a, b) for lst in by_type.values() for a in lst for b in lst if a[2] > 0 > b[2]), None)
+                        if pair is not None:
+                            (p1, s1, e1), (p2, s2, e2) = pair
+                            acc6 = Scalar(p1, s1) / Scalar(p2, s2)  # unit-less when it is one unit over another of its type
+                            rest = []
+                            for pre, s_, e in r["parts"]:
+                                k = abs(e) - (1 if (pre, s_, e) in ((p1, s1, e1), (p2, s2, e2)) else 0)
+                                rest += [(pre, s_, e)] * k
+                            for pre, s_, e in rest:
+                                acc6 = acc6 * Scalar(pre, s_) if e > 0 else acc6 / Scalar(pre, s_)
+                            forms5.append(("same-type ratio first", acc6))
+                        for form, a5 in forms5:
+                            ctx.ev()
+                            ctx.count("rows composed with a unit-less amount on the left")
+                            readings_agree(ctx, T, a5, r["unit"], form)
+                            g5 = dims.basemag(T, a5.GetValue(), dims.items_of(a5.GetQuantity())) * Fr(ref["k"])
+                            if not abs(float(g5 / got) - 1) <= 1e-9:
+                                ctx.violation("two-compositions-of-the-same-parts-differ", {"row": r["unit"], "by_multiplication": repr(acc), form: repr(a5), "ratio": float(g5 / got)}, replay={"row": r["unit"]})
+                    except Exception as e:
+                        ctx.violation("dynamic-fold-raised:%s" % r["unit"].replace(" ", "_"), {"row": r["unit"], "error": repr(e)[:200]}, replay={"row": r["unit"]})
+                    # a row that is one component at an exponent ('1/ft', 'ft2', '1/psi'): the (unit, exponent) overload of the
+                    # conversion - Convert(qt, [(u, e)], [(base, e)], x) and GetValue([(base, e)]) of the derived amount - tells the
+                    # same factor as the product of the component's factors
+                    if len(r["parts"]) == 1 and r["parts"][0][0] == 1.0:
+                        _pre, atom, e = r["parts"][0]
+                        aqt = infos[atom].quantity_type
+                        abase = db.GetBaseUnit(aqt)
+                        for route, amount, fn in (
+                            ("UnitDatabase.Convert(qt,[(u,e)],[(base,e)],x)", 2.0, lambda: db.Convert(aqt, [(atom, e)], [(abase, e)], 2.0)),
+                            ("derived Scalar.GetValue([(base,e)])", 2.0, lambda: ((Scalar(1.0, atom) ** abs(e)) * 2.0 if e > 0 else 2.0 / (Scalar(1.0, atom) ** abs(e))).GetValue([(abase, e)])),
+                            # a negative amount of the same unit is the same factor away from its base amount
+                            ("UnitDatabase.Convert(qt,[(u,e)],[(base,e)],-x)", -3.0, lambda: db.Convert(aqt, [(atom, e)], [(abase, e)], -3.0)),
+                            ("derived Scalar.GetValue([(base,e)]) of a negative amount", -3.0, lambda: ((Scalar(1.0, atom) ** abs(e)) * -3.0 if e > 0 else -3.0 / (Scalar(1.0, atom) ** abs(e))).GetValue([(abase, e)])),
+                        ):  # fmt: skip
+                            ctx.ev()
+                            ctx.count("single-component rows read through the (unit, exponent) overload")
+                            try:
+                                gv = float(fn())
+                            except Exception as ex:
+                                ctx.violation("route-raised:%s" % route, {"row": r["unit"], "route": route, "error": repr(ex)[:200]}, replay={"row": r["unit"]})
+                                continue
+                            wv = amount * r["composed"]
+                            if not abs(gv - wv) <= 1e-11 * abs(wv):
+                                ctx.violation("row-factor-differs-by-route:%s" % route, {"row": r["unit"], "route": route, "got": gv, "product_of_component_factors": wv}, replay={"row": r["unit"]})
                 # the row's factor as every public conversion route tells it (floats, lists, tuples, arrays, value objects)
                 for route, got_f in factor_routes(db, qt, r["unit"], base):
                     ctx.ev()
